@@ -71,7 +71,7 @@ theorem Good.wakeOne {w : W} (h : Good w) (rid : Nat) (e : WEnt) (rest : List WE
   obtain ⟨l, g, _⟩ := wake_prep zero_nonneg h.lv rid hh hd (fun c => { c with waitCount := c.waitCount - 1 })
   -- no record at count 0
   have n1 : Nz (w.modR rid (fun r => { r with timeouted := true })) none :=
-    h.nz.of_up (RecsUp.modRec _ rid _ (fun _ => rfl) (fun _ h => ⟨h.pos, h.hold, h.ended⟩))
+    h.nz.of_up (RecsUp.modRec _ rid _ (fun _ => rfl) (fun _ h => ⟨h.pos, h.hold, h.ended, h.fin⟩))
   have l1 : Lv (w.modR rid (fun r => { r with timeouted := true })) zero :=
     h.lv.modR rid _ (fun _ => rfl) (h.lv.rc.modRec_plain rid _ (fun _ => rfl) (fun _ => rfl) (fun _ => rfl)) (by
       intro r _ _ hf; simp at hf)
